@@ -676,3 +676,124 @@ Proof.
     split; [eapply wf_descr; [| | |exact Hwf1]; reflexivity|].
     split; [exact Hall|]. repeat split; cbn; assumption.
 Qed.
+
+(** ** writes through a returned [&mut V], and the operations that address a node without the index *)
+Definition wval (w : option val) (v : val) : val := match w with Some x => x | None => v end.
+
+Lemma h_write_ok h q l1 a k v l2 w :
+  wf h q (l1 ++ (a, (k, v)) :: l2) ->
+  exists h', h_write h a w = HOk (h', (k, v)) /\ wf h' q (l1 ++ (a, (k, wval w v)) :: l2) /\
+             fresh h' = fresh h /\ (forall x, x <> a -> cells h' x = cells h x).
+Proof.
+  intros (Hc & Hi & Hnd). pose proof (seg_mid _ _ _ _ _ _ _ _ (ch_seg _ _ _ Hc)) as Ecell.
+  unfold h_write. rewrite (hread_node _ _ _ _ _ _ Ecell). cbn [hbind].
+  destruct w as [w|]; cbn [wval].
+  - eexists. split; [reflexivity|]. split; [|split; [apply fresh_hupd|intros x Hx; now apply cells_hupd_other]].
+    split; [apply (chain_set_entry h q l1 a (k, v) (k, w) l2 _ _ Hc Ecell)|]. split.
+    + unfold idx_ok in *. rewrite map_app in *. exact Hi.
+    + rewrite entries_app, keys_app in *. exact Hnd.
+  - eexists. split; [reflexivity|]. split; [|split; reflexivity]. split; [exact Hc|split; assumption].
+Qed.
+
+Theorem h_peek_mut_hit h q l1 a k v l2 w :
+  wf h q (l1 ++ (a, (k, v)) :: l2) ->
+  exists h', h_peek_mut h q k w = HOk (h', Some v) /\ wf h' q (l1 ++ (a, (k, wval w v)) :: l2) /\
+             fresh h' = fresh h /\ (forall x, x <> a -> cells h' x = cells h x).
+Proof.
+  intros Hwf. unfold h_peek_mut.
+  rewrite (idx_find_hit h q _ a k v Hwf) by (apply in_or_app; right; now left). cbn [hbind].
+  destruct (h_write_ok h q l1 a k v l2 w Hwf) as (h' & -> & Hwf' & Ef & Hfr). cbn [hbind snd].
+  eexists. split; [reflexivity|]. auto.
+Qed.
+
+Theorem h_peek_mut_miss h q l k w :
+  wf h q l -> Base.find k (entries l) = None -> h_peek_mut h q k w = HOk (h, None).
+Proof. intros Hwf Hf. unfold h_peek_mut. now rewrite (idx_find_miss h q l k Hwf Hf). Qed.
+
+Theorem h_contains_ok h q l k :
+  wf h q l -> h_contains h q k = HOk (mem k (entries l)).
+Proof.
+  intros Hwf. unfold h_contains, mem. destruct (Base.find k (entries l)) as [v|] eqn:Hf.
+  - apply find_some_in in Hf. unfold entries in Hf. apply in_map_iff in Hf. destruct Hf as ([a e] & E & Hin).
+    cbn [snd] in E. subst e. now rewrite (idx_find_hit h q l a k v Hwf Hin).
+  - now rewrite (idx_find_miss h q l k Hwf Hf).
+Qed.
+
+Lemma idx_empty_iff q l : idx_ok q l -> (length (hidx q) =? 0) = true <-> l = [].
+Proof.
+  intros Hi. rewrite (idx_len q l Hi). rewrite Nat.eqb_eq. destruct l; cbn; split; congruence || lia.
+Qed.
+
+Theorem h_get_lru_some h q l a k v w :
+  wf h q (l ++ [(a, (k, v))]) ->
+  exists h', h_get_lru h q w = HOk (h', Some (k, v)) /\ wf h' q ((a, (k, wval w v)) :: l) /\ fresh h' = fresh h /\
+             (forall x, outside q (l ++ [(a, (k, v))]) x -> cells h' x = cells h x).
+Proof.
+  intros Hwf. pose proof Hwf as (Hc & Hi & Hnd). unfold h_get_lru.
+  destruct (length (hidx q) =? 0) eqn:E0.
+  { apply (idx_empty_iff q _ Hi) in E0. destruct l; discriminate. }
+  rewrite (tail_prev_last h q l a (k, v) Hc). cbn [hbind].
+  destruct (detach_chain h q l a (k, v) [] Hc) as (h1 & -> & Hc1 & Ea & Ef1 & Hfr1). cbn [hbind].
+  rewrite app_nil_r in Hc1, Hfr1.
+  pose proof (seg_mid _ _ _ _ _ _ _ _ (ch_seg _ _ _ Hc)) as Ecell. rewrite <- Ea in Ecell.
+  pose proof (ch_nodup _ _ _ Hc) as Hnd0. rewrite addrs_app in Hnd0. cbn [addrs map fst] in Hnd0.
+  destruct (nodup_split_facts _ _ _ _ _ Hnd0) as (Hht & Hha & Hta & Hh1 & Hh2 & Ht1 & Ht2 & Ha1 & Ha2 & _).
+  assert (Hnotin : ~ In a (hhead q :: htail q :: addrs l)).
+  { cbn [In]. intros [E|[E|H]]; congruence || contradiction. }
+  assert (Hlt : a < fresh h1).
+  { rewrite Ef1. apply (ch_fresh _ _ _ Hc). right. right. rewrite addrs_app. apply in_or_app. right. now left. }
+  destruct (attach_chain h1 q l a k v _ _ Hc1 Hnotin Hlt Ecell) as (h2 & -> & Hc2 & Ef2 & Hfr2). cbn [hbind].
+  assert (Hwf2 : wf h2 q ([] ++ (a, (k, v)) :: l)).
+  { split; [exact Hc2|]. split.
+    - rewrite <- (app_nil_r l). eapply wf_perm_front; eauto.
+    - rewrite <- (app_nil_r l). eapply keys_perm_front; eauto. }
+  destruct (h_write_ok h2 q [] a k v l w Hwf2) as (h3 & -> & Hwf3 & Ef3 & Hfr3). cbn [hbind].
+  eexists. split; [reflexivity|]. split; [exact Hwf3|]. split; [congruence|].
+  intros x Hx. apply outside_split in Hx. destruct Hx as (X1 & X2 & X3 & X4). rewrite app_nil_r in X4.
+  rewrite Hfr3 by assumption. rewrite Hfr2 by assumption. now apply Hfr1.
+Qed.
+
+Theorem h_get_lru_none h q w : wf h q [] -> h_get_lru h q w = HOk (h, None).
+Proof.
+  intros (_ & Hi & _). unfold h_get_lru.
+  replace (length (hidx q) =? 0) with true; [reflexivity|]. symmetry. now apply (idx_empty_iff q []).
+Qed.
+
+Theorem h_peek_lru_some h q l a k v w :
+  wf h q (l ++ [(a, (k, v))]) ->
+  exists h', h_peek_lru h q w = HOk (h', Some (k, v)) /\ wf h' q (l ++ [(a, (k, wval w v))]) /\ fresh h' = fresh h /\
+             (forall x, x <> a -> cells h' x = cells h x).
+Proof.
+  intros Hwf. pose proof Hwf as (Hc & Hi & Hnd). unfold h_peek_lru.
+  destruct (length (hidx q) =? 0) eqn:E0.
+  { apply (idx_empty_iff q _ Hi) in E0. destruct l; discriminate. }
+  rewrite (tail_prev_last h q l a (k, v) Hc). cbn [hbind].
+  destruct (h_write_ok h q l a k v [] w Hwf) as (h' & -> & Hwf' & Ef & Hfr). cbn [hbind].
+  eexists. split; [reflexivity|]. auto.
+Qed.
+
+Theorem h_peek_lru_none h q w : wf h q [] -> h_peek_lru h q w = HOk (h, None).
+Proof.
+  intros (_ & Hi & _). unfold h_peek_lru.
+  replace (length (hidx q) =? 0) with true; [reflexivity|]. symmetry. now apply (idx_empty_iff q []).
+Qed.
+
+Theorem h_peek_mru_some h q a k v l w :
+  wf h q ((a, (k, v)) :: l) ->
+  exists h', h_peek_mru h q w = HOk (h', Some (k, v)) /\ wf h' q ((a, (k, wval w v)) :: l) /\ fresh h' = fresh h /\
+             (forall x, x <> a -> cells h' x = cells h x).
+Proof.
+  intros Hwf. pose proof Hwf as (Hc & Hi & Hnd). unfold h_peek_mru.
+  destruct (length (hidx q) =? 0) eqn:E0.
+  { apply (idx_empty_iff q _ Hi) in E0. discriminate. }
+  destruct (ch_head _ _ _ Hc) as [hp Eh]. cbn [first_addr] in Eh.
+  rewrite (hread_node _ _ _ _ _ _ Eh). cbn [hbind].
+  destruct (h_write_ok h q [] a k v l w Hwf) as (h' & -> & Hwf' & Ef & Hfr). cbn [hbind].
+  eexists. split; [reflexivity|]. auto.
+Qed.
+
+Theorem h_peek_mru_none h q w : wf h q [] -> h_peek_mru h q w = HOk (h, None).
+Proof.
+  intros (_ & Hi & _). unfold h_peek_mru.
+  replace (length (hidx q) =? 0) with true; [reflexivity|]. symmetry. now apply (idx_empty_iff q []).
+Qed.
